@@ -129,18 +129,29 @@ pub trait BW6Config: 'static + Eq + Sized {
             f_u_inv = f_u.cyclotomic_inverse().unwrap();
         }
 
+        // `f_u` is the product over *all* pairs, so it must enter `f_1` and `f_2` exactly
+        // once, not once per chunk: only the first chunk carries it, the others carry one.
+        let one = <BW6<Self> as Pairing>::TargetField::one();
+
         // f_1(P) = f_(u+1)(P) = f_u(P) * l([u]q, q)(P)
-        let mut f_1 = cfg_chunks_mut!(pairs_1, 4)
-            .map(|pairs| {
-                pairs.iter_mut().fold(f_u, |mut f, (p, coeffs)| {
-                    BW6::<Self>::ell(&mut f, &coeffs.next().unwrap(), &p.0);
-                    f
+        let mut f_1 = f_u
+            * cfg_chunks_mut!(pairs_1, 4)
+                .map(|pairs| {
+                    pairs.iter_mut().fold(one, |mut f, (p, coeffs)| {
+                        BW6::<Self>::ell(&mut f, &coeffs.next().unwrap(), &p.0);
+                        f
+                    })
                 })
-            })
-            .product::<<BW6<Self> as Pairing>::TargetField>();
+                .product::<<BW6<Self> as Pairing>::TargetField>();
 
         let mut f_2 = cfg_chunks_mut!(pairs_2, 4)
-            .map(|pairs| {
+            .enumerate()
+            .map(|(chunk_index, pairs)| {
+                let (f_u, f_u_inv) = if chunk_index == 0 {
+                    (f_u, f_u_inv)
+                } else {
+                    (one, one)
+                };
                 let mut f = f_u;
                 for i in (1..Self::ATE_LOOP_COUNT_2.len()).rev() {
                     f.square_in_place();
